@@ -8,6 +8,34 @@ from build import *
 _PLANNERS = {}   # planner objects are shared by all cases of a process with the same settings (object reuse)
 
 
+def negated(case, explicit_lists=False):
+    """the same MDP with state s labelled -s-1 and action a labelled -a-1 (sorted lists in reverse order)"""
+    from msdm.core.mdp.quickmdp import QuickTabularMDP
+    from msdm.core.distributions import DictDistribution
+    S = lambda s: -s - 1
+    trans, rew = {}, {}
+    for k, row in case["trans"].items():
+        s, a = map(int, k.split(","))
+        trans[(S(s), S(a))] = DictDistribution({S(ns): fl(p) for ns, p in row})
+    for k, r in case["reward"].items():
+        s, a, ns = map(int, k.split(","))
+        rew[(S(s), S(a), S(ns))] = fl(r)
+    actions = {S(s): tuple(S(a) for a in acts) for s, acts in enumerate(case["actions"])}
+    absorbing = {S(s): bool(x) for s, x in enumerate(case["absorbing"])}
+    mdp = QuickTabularMDP(
+        next_state_dist=lambda s, a: trans[(s, a)],
+        reward=lambda s, a, ns: rew.get((s, a, ns), 0.0),
+        actions=lambda s: actions[s],
+        initial_state_dist=DictDistribution({S(s): fl(p) for s, p in case["init"]}),
+        is_absorbing=lambda s: absorbing[s],
+        discount_rate=fl(case["gamma"]),
+    )
+    if explicit_lists:
+        mdp._state_list = tuple(sorted(S(s) for s in range(case["n"])))
+        mdp._action_list = tuple(sorted(S(a) for a in range(case["nA"])))
+    return mdp
+
+
 def one(case, pl):
     from msdm.algorithms.valueiteration import ValueIteration
     from msdm.algorithms.policyiteration import PolicyIteration
@@ -74,7 +102,8 @@ def one(case, pl):
                     mv = dict(case["mdp"])
                     mv["reward"] = {k: str(Fraction(x) * Fraction(v["scale"])) for k, x in case["mdp"]["reward"].items()}
                     mv["gamma"] = v["gamma"]
-                    mdps.append(build_mdp(mv, explicit_lists=case.get("explicit_lists", False)))
+                    mdps.append(negated(mv, explicit_lists=case.get("explicit_lists", False)) if v.get("negated_labels") else
+                                build_mdp(mv, explicit_lists=case.get("explicit_lists", False)))
             key = ("pi", case["max_residual"], case["max_iterations"], case["undefined_value"])
             if key not in _PLANNERS:
                 _PLANNERS[key] = planners["pi"]()
